@@ -63,10 +63,11 @@ def build_bundle(tree, name, counter):
         setattr(b, s["n"], sig)
     for sub in tree["subs"]:
         sb = build_bundle(sub["of"], name + "_" + sub["n"], counter)
+        # a sub-bundle instance may itself be declared `port=True`: port-ness is the top-level instance's alone
         if sub["flip"] and sub.get("via") == "fn":
-            inst = hbundle.flipped(sb(role=ROLE[sub["role"]]))
+            inst = hbundle.flipped(sb(role=ROLE[sub["role"]], port=bool(sub.get("port"))))
         else:
-            inst = sb(role=ROLE[sub["role"]], flipped=sub["flip"])
+            inst = sb(role=ROLE[sub["role"]], flipped=sub["flip"], port=bool(sub.get("port")))
         setattr(b, sub["n"], inst)
     return b
 
@@ -74,37 +75,55 @@ def build_bundle(tree, name, counter):
 DIRS = {0: "input", 1: "output", 2: "inout", 3: "none"}
 
 
+def build_inner(case, B):
+    inner = h.Module(name="Inner")
+    if case["flip"] and case.get("via") == "fn":
+        inner.p = hbundle.flipped(B(port=True, role=ROLE[case["role"]]))
+    else:
+        inner.p = B(port=True, role=ROLE[case["role"]], flipped=case["flip"])
+    inner.q = B()
+    return inner
+
+
 def impl(case):
     import vlsir.circuit_pb2 as vckt
 
+    dname = {vckt.Port.Direction.INPUT: "input", vckt.Port.Direction.OUTPUT: "output",
+             vckt.Port.Direction.INOUT: "inout", vckt.Port.Direction.NONE: "none"}
+    # Inner by itself: its flattened ports and internal signals
+    try:
+        B0 = build_bundle(case["tree"], "B", itertools.count())
+        pkg0 = h.to_proto(build_inner(case, B0))
+    except Exception as ex:  # noqa
+        return {"reject": f"{type(ex).__name__}: {str(ex)[-200:]}"}
+    pi = observe.find_module(pkg0, "Inner")
+    ws = observe.module_widths(pi)
+    ports = [{"name": p.signal, "width": ws[p.signal], "dir": dname[p.direction]} for p in pi.ports]
+    portnames = {p.signal for p in pi.ports}
+    internal = [{"name": s.name, "width": s.width} for s in pi.signals if s.name not in portnames]
+    out = {"ports": ports, "internal": internal}
+    # ... and under parents
     try:
         B = build_bundle(case["tree"], "B", itertools.count())
-        inner = h.Module(name="Inner")
-        if case["flip"] and case.get("via") == "fn":
-            inner.p = hbundle.flipped(B(port=True, role=ROLE[case["role"]]))
-        else:
-            inner.p = B(port=True, role=ROLE[case["role"]], flipped=case["flip"])
-        inner.q = B()
+        inner = build_inner(case, B)
         outer = h.Module(name="Outer")
         outer.b = B()
         outer.i = inner(p=outer.b)
         pkg = h.to_proto(outer)
         anon = anon_parent(case, B, inner)
     except Exception as ex:  # noqa
-        return {"reject": f"{type(ex).__name__}: {str(ex)[-200:]}"}
-    pi = observe.find_module(pkg, "Inner")
+        out["parent_reject"] = f"{type(ex).__name__}: {str(ex)[-200:]}"
+        return {"ok": out}
+    pi2 = observe.find_module(pkg, "Inner")
+    if [(p.signal, p.direction) for p in pi2.ports] != [(p.signal, p.direction) for p in pi.ports]:
+        out["ports_differ_under_parent"] = [p.signal for p in pi2.ports]
     po = observe.find_module(pkg, "Outer")
-    ws = observe.module_widths(pi)
-    dname = {vckt.Port.Direction.INPUT: "input", vckt.Port.Direction.OUTPUT: "output",
-             vckt.Port.Direction.INOUT: "inout", vckt.Port.Direction.NONE: "none"}
-    ports = [{"name": p.signal, "width": ws[p.signal], "dir": dname[p.direction]} for p in pi.ports]
-    portnames = {p.signal for p in pi.ports}
-    internal = [{"name": s.name, "width": s.width} for s in pi.signals if s.name not in portnames]
     inst = [i for i in po.instances if i.name == "i"][0]
     conns = []
     for c in inst.connections:
         conns.append([c.portname, c.target.sig if c.target.WhichOneof("stype") == "sig" else "<non-signal>"])
-    return {"ok": {"ports": ports, "internal": internal, "conns": conns, "anon": anon}}
+    out.update(conns=conns, anon=anon)
+    return {"ok": out}
 
 
 def anon_parent(case, B, inner):
@@ -137,15 +156,33 @@ def anon_parent(case, B, inner):
         rng.shuffle(members)
         return h.AnonymousBundle(**dict(members))
 
-    outer.i = inner(p=build(case["tree"], B, []))
+    first = build(case["tree"], B, [])
+    outer.i = inner(p=first)
+    # a second instance: the very same member objects in the very same order, under permuted names (members of equal width swapped)
+    expected2 = None
+    names = list(first._namespace)
+    objs = list(first._namespace.values())
+    sigw = {n: o.width for n, o in zip(names, objs) if isinstance(o, h.Signal)}
+    swaps = [(a, b) for a in sigw for b in sigw if a < b and sigw[a] == sigw[b]]
+    if swaps:
+        a, b = swaps[rng.randrange(len(swaps))]
+        ren = {a: b, b: a}
+        outer.j = inner(p=h.AnonymousBundle(**{ren.get(n, n): o for n, o in zip(names, objs)}))
+        expected2 = dict(expected)
+        expected2["p_" + a], expected2["p_" + b] = expected["p_" + b], expected["p_" + a]
     try:
         pkg = h.to_proto(outer)
     except Exception as ex:  # noqa
         return {"reject": f"{type(ex).__name__}: {str(ex)[-160:]}"}
     po = observe.find_module(pkg, "Outer2")
+    tgt = lambda c: c.target.sig if c.target.WhichOneof("stype") == "sig" else "<non-signal>"
     inst = [i for i in po.instances if i.name == "i"][0]
-    got = {c.portname: (c.target.sig if c.target.WhichOneof("stype") == "sig" else "<non-signal>") for c in inst.connections}
-    return {"got": got, "expected": expected}
+    got = {c.portname: tgt(c) for c in inst.connections}
+    out = {"got": got, "expected": expected}
+    if expected2 is not None:
+        inst2 = [i for i in po.instances if i.name == "j"][0]
+        out["got2"], out["expected2"] = {c.portname: tgt(c) for c in inst2.connections}, expected2
+    return out
 
 
 def leaf_paths(tree):
@@ -174,12 +211,20 @@ def judge(case, im, mo):
     want_int = sorted(({"name": p["name"], "width": p["width"]} for p in mo["internal"]), key=key)
     if sorted(got["internal"], key=key) != want_int:
         yield ("pred", f"leaves of the non-port instance are not internal signals: {got['internal']} vs {want_int}")
+    if "parent_reject" in got:
+        yield ("corr", f"valid bundle connection rejected: {got['parent_reject']}")
+        return
+    if "ports_differ_under_parent" in got:
+        yield ("pred", f"the module's flattened ports depend on whether it has a parent: {got['ports_differ_under_parent']}")
     an = got["anon"]
     if "reject" in an:
         yield ("corr", f"re-ordered anonymous-bundle connection rejected: {an['reject']}")
     elif an["got"] != an["expected"]:
         bad = {k: (v, an["expected"].get(k)) for k, v in an["got"].items() if an["expected"].get(k) != v}
         yield ("pred", f"anonymous-bundle connection does not pair members by path: {bad}")
+    elif an.get("got2") != an.get("expected2"):
+        bad = {k: (v, an["expected2"].get(k)) for k, v in an["got2"].items() if an["expected2"].get(k) != v}
+        yield ("pred", f"a second anonymous bundle (same signals, names permuted) does not pair members by name: {bad}")
     if sorted(got["conns"]) != sorted(mo["conns"] or []):
         yield ("pred", f"bundle connection does not pair members by path: {sorted(got['conns'])} vs {mo['conns']}")
 
@@ -198,7 +243,7 @@ def rand_tree(rng, depth, fan):
         for i in range(nsub):
             subs.append({"n": names[nsig + i] if nsig + i < len(names) else f"s{i}", "flip": rng.random() < 0.5,
                          "via": rng.choice(["ctor", "fn"]), "role": rng.choice([None, "HOST", "DEVICE"]),
-                         "of": rand_tree(rng, depth - 1, fan)})
+                         "port": rng.random() < 0.3, "of": rand_tree(rng, depth - 1, fan)})
     return {"sigs": sigs, "subs": subs}
 
 
@@ -210,7 +255,8 @@ def exhaustive_small():
                 for roles in itertools.product([None, "HOST", "DEVICE"], repeat=depth + 1):
                     t = {"sigs": [leaf_json("x", kind, 1)], "subs": []}
                     for d in range(depth):
-                        t = {"sigs": [], "subs": [{"n": f"l{d}", "flip": flips[d + 1], "via": "ctor", "role": roles[d + 1], "of": t}]}
+                        t = {"sigs": [], "subs": [{"n": f"l{d}", "flip": flips[d + 1], "via": "ctor", "role": roles[d + 1], "of": t,
+                                                   "port": (sum(flips) + d) % 2 == 1}]}
                     yield {"tree": t, "flip": flips[0], "via": "fn" if depth == 1 else "ctor", "role": roles[0]}
 
 
